@@ -9,6 +9,7 @@ boundary (crash injector, DESIGN.md 3.6).
 import os, shutil, json, hashlib, sqlite3 as real_sqlite3
 from .. import modelrun
 from ..translators import c13_store as tr
+from .. import c13_tracecheck as tracecheck
 
 ASSUME = [
     "modelled, not verified: SQLite itself (a commit is atomic and durable; reopening a database with a hot "
@@ -18,9 +19,13 @@ ASSUME = [
     "read-back (load(store(x)).serialize() == x.serialize()) but not modelled",
     "keys are as in real use: recipient / sender ids are decimal strings without leading zeros or ints >= 0 "
     "(INTEGER affinity would merge '049' and '49'; recipient -1 is the own identity row)",
-    "tie = fail-closed ast translator (SQL verb/table/key columns/commits per method, self-calls inlined) re-run "
-    "on every check + differential traces: at every statement and commit boundary of every call the snapshot "
-    "(db + journal) reopened by a fresh connection equals the model's durable database",
+    "tie = fail-closed symbolic interpreter of the store classes (SQL verb/table/key columns/commits per public "
+    "method; helper methods inlined at their call sites with symbolic arguments and return values; writes under "
+    "data-dependent conditions rejected) re-run on every check + trace cross-check (every translated public method "
+    "and every constructor run once on the real class over a tracing connection, row absent / present: observed "
+    "write statements and commits = translated program) + differential traces: at every statement and commit "
+    "boundary of every call the snapshot (db + journal) reopened by a fresh connection equals the model's durable "
+    "database",
     "conversations continuing across restarts with live ratchets is exercised by C03's simulator, not here",
 ]
 
@@ -280,6 +285,27 @@ def bound_method(meta, store, cls, name):
     raise KeyError(cls)
 
 
+def init_arg_values(meta, regid, keypair):
+    """Model arguments of the guarded initialisation.  The values it generated are read back through the public
+    API (registration id, identity key pair); which of them a model argument is computed from is decided by
+    which one its accessor chain and column affinity apply to -- not by the names of locals in the source."""
+    args = meta["init"]["args"]
+    roots = {}
+    for r in sorted(set(a["root"] for a in args)):
+        mine = [a for a in args if a["root"] == r]
+        for cand in (regid, keypair):
+            try:
+                for a in mine:
+                    chain_value({r: cand}, a)
+            except Exception:
+                continue
+            roots[r] = cand
+            break
+        else:
+            raise ValueError("generated value %s is neither the registration id nor the identity key pair" % r)
+    return [chain_value(roots, a) for a in args]
+
+
 def chain_value(root_values, a):
     v = root_values[a["root"]]
     for c in a["chain"]:
@@ -451,9 +477,12 @@ def run_impl(ctx, meta, ops, tag="s"):
                 rig.open()
                 st = rig.store
                 kp = st.getIdentityKeyPair()
-                roots = {"gen:registration_id": st.getLocalRegistrationId(), "gen:identity": kp}
+                if kp is None or st.getLocalRegistrationId() is None:
+                    out.problems.append(("oracle:readback", {
+                        "op": idx, "what": "a store that was just opened has no own identity key pair / registration id"}))
+                    break
                 try:
-                    margs = [chain_value(roots, x) for x in meta["init"]["args"]]
+                    margs = init_arg_values(meta, st.getLocalRegistrationId(), kp)
                 except Exception as e:
                     out.problems.append(("driver", {"op": idx, "error": "init args: %r" % (e,)}))
                     break
@@ -741,6 +770,18 @@ def run(ctx):
         ctx.ties["translator:c13_store"] = "ok"
     except tr.Unrecognised as e:
         ctx.ties["translator:c13_store"] = "broken: %s" % e
+    if meta is not None:
+        # cheap guard of the (liberal) interpreter: one traced run of every public method / constructor
+        rep = tracecheck.run(meta, tr.REPO, ctx.scratch)
+        ctx.coverage["trace_crosscheck"] = {
+            "runs": rep["runs"], "agree": rep["agree"], "inconclusive": rep["inconclusive"],
+            "disagree": len(rep["disagreements"]), "error": rep["error"],
+            "what": "public methods x {row absent, row present} + constructors x {fresh, again}: observed write "
+                    "statements (verb, table) and commits vs the translated program"}
+        if rep["error"] or rep["disagreements"]:
+            ctx.ties["tracecheck:c13_store"] = "broken: %s" % (rep["error"] or json.dumps(rep["disagreements"][:3]))
+        else:
+            ctx.ties["tracecheck:c13_store"] = "ok"
     ctx.prove()
     exe = ctx.build_model("C13") if meta else None
     model = modelrun.Model(exe) if exe else None
@@ -814,7 +855,7 @@ def run(ctx):
             ctx.coverage["store_ok_computed_by_extracted_model"] = bool(ok)
             model.close()
             ctx.ties["correspondence"] = "ok" if corr_bad == 0 else "broken"
-    for k in ("translator:c13_store",):
+    for k in ("translator:c13_store", "tracecheck:c13_store"):
         if ctx.ties.get(k, "ok") != "ok" and not ctx.violations:
             ctx.tie_broken_without_input(k, ctx.ties[k])
     if not ctx.proof_ok and not ctx.violations:
@@ -832,7 +873,9 @@ def run(ctx):
         driven = set((c, m) for (c, m, _) in OPS.values())
         ctx.coverage["writers_without_driver"] = sorted(
             "%s.%s" % (m["class"], m["name"]) for m in meta["methods"]
-            if m["writes"] and (m["class"], m["name"]) not in driven and m["name"] != "_storeLocalData")
+            if m["writes"] and (m["class"], m["name"]) not in driven and m.get("public", True))
+        ctx.coverage["private_helpers_inlined_only"] = sorted(
+            "%s.%s" % (x["class"], x["name"]) for x in meta.get("skipped", []))
     return ctx.finish(
         rule="a case = one sequence of store API calls and restarts (corpus, 5 systematic sequences covering every "
              "writer in every precondition, then seeded random sequences of 3-16 calls over a small key universe so "
